@@ -513,7 +513,7 @@ Section Safe.
         * unfold noquote. apply forallb_forall. intros c I. apply DS in I.
           repeat (apply andb_true_iff in I; destruct I as [I ?]). auto.
         * intro I. apply DS in I. repeat (apply andb_true_iff in I; destruct I as [I ?]).
-          apply N.leb_le in I. unfold nl in I. lia.
+          vm_compute in I. discriminate I.
   Qed.
 End Safe.
 
